@@ -620,7 +620,7 @@ func (g *G) Scalar(typ string, depth int, label string) Val {
 	case "mac":
 		n := 6
 		if !g.cfg.C08 {
-			n = rapid.SampledFrom([]int{6, 6, 6, 8, 20}).Draw(t, label+".macn")
+			n = rapid.SampledFrom([]int{6, 6, 6, 8, 20, 23, 24, 32, 256}).Draw(t, label+".macn") // (20: IP over InfiniBand; longer ones: whatever a driver reports, a net.HardwareAddr is just bytes)
 		}
 		v.S = rapid.SliceOfN(rapid.Byte(), n, n).Draw(t, label+".mac")
 	case "nil":
